@@ -206,6 +206,10 @@ def run(ctx, mod, args):
         ctx.ext_dir = d
         ctx.note("tak_ext: " + d)
     env.setup_impl_path(ctx.ext_dir)
+    if os.environ.get("COVERAGE_PROCESS_START"):
+        import coverage  # tools/tie_coverage.py: which lines of /repo/python does this check execute?
+
+        coverage.process_startup()
     if getattr(mod, "NEEDS_STUBS", False):
         import takverif_stubs  # noqa  (harness/bootstrap)
 
